@@ -7,6 +7,8 @@
 From Verif Require Import Lib.Bytes Crash.Outcome Crash.IdModels Crash.IdProofs Crash.Sites
      Gen.GenSites Gen.GenVersions Crash.SitesSpec.
 From Coq Require Import Arith.
+From Verif Require Import Json.Ast Json.Parse Json.Render Json.CanonC01 Json.CompactModelC01
+     Json.CompactProofsC01 Json.CompactValidC01.
 
 Theorem all_sites_classified : all_sites_classified_b = true.
 Proof. vm_compute. reflexivity. Qed.
@@ -64,6 +66,19 @@ Proof. exact (@two_parts_no_crash bytes). Qed.
 Theorem srv_target_total : forall target, target <> [] -> trim_srv_target target <> Crash.
 Proof. exact trim_srv_target_no_crash. Qed.
 
+(* CompactJSON / compactUnicodeEscape / readHexDigits, modelled byte by byte with every index
+   read explicit: no crash on any text the validity gate of CanonicalJSON lets through (the
+   reference parser accepts it; its agreement with gjson.Valid is what C01's correspondence
+   compares), and the crashing byte strings are exactly those the scanner compact_safe refuses
+   (the exported CompactJSON / CanonicalJSONAssumeValid do crash on them: precondition, not defect) *)
+Theorem compact_json_total_on_valid : forall t, json_valid t = true -> compact_model t <> Crash.
+Proof. exact CompactValidC01.compact_no_panic. Qed.
+Theorem compact_json_total_on_renderings : forall v t, RendersText v t -> compact_model t <> Crash.
+Proof. exact compact_no_panic_renders. Qed.
+Theorem compact_json_crashes_exactly_when_unsafe :
+  forall t, compact_model t = Crash <-> compact_safe t = false.
+Proof. exact compact_crash_iff. Qed.
+
 (* non-vacuity / sharpness: the guards in the statements above are needed *)
 Example split_id_needs_its_guard : split_id colon [colon; 120%N] = Crash.
 Proof. reflexivity. Qed.
@@ -89,3 +104,6 @@ Print Assumptions parse_authorization_total.
 Print Assumptions after_prefix_total.
 Print Assumptions two_parts_total.
 Print Assumptions srv_target_total.
+Print Assumptions compact_json_total_on_valid.
+Print Assumptions compact_json_total_on_renderings.
+Print Assumptions compact_json_crashes_exactly_when_unsafe.
